@@ -160,8 +160,18 @@ CLAIMED["C20"] = (
     "DESIGN.md §11.8",
 )
 
+CLAIMED["C17"] = (
+    "symbolic execution of the real get_page_tree / PageNode on a virtual page directory (file system and Markdown converter stubbed) whose page contents are finite-choice symbolic values, decided by z3",
+    "Tree-building half of C17: for every combination of titled/untitled pages, ordered_subpage lists (none, partial, complete, naming index.md, a directory, a "
+    "non-Markdown file, a duplicate, a missing file) at two levels and copy_subdir, the page tree has one page per titled Markdown file at the mirrored relative path, "
+    "sub-trees for directories with a titled index.md, the documented order (listed first, the rest alphabetically whatever order the OS lists), hidden/backup entries "
+    "ignored, other files recorded for copying, untitled pages reported and skipped without losing siblings, hierarchy = chain of parents.  Copying, HTML, aliases and "
+    "relative links are outside.",
+    "Trusted: z3, CV evaluator, the in-memory file system stub (fv/props/c17.py::VFS/VPath) and the documented-tree oracle written from writing_pages.rst; replays use a real temporary directory.",
+    "DESIGN.md §11.9",
+)
+
 NOT_APPLICABLE = {
-    "C17": "get_page_tree is a recursive walk over a real directory interleaved with python-markdown; with file system, pathlib and markdown stubbed nothing of the property's substance remains (DESIGN.md §7)",
     "C19": "property is about file-system effects of shutil/pathlib/graphviz calls and injected I/O failures; not a function of symbolic data (DESIGN.md §7)",
 }
 NOT_YET = "obligations for this property are not built yet in this revision (see DESIGN.md §9 build order); not claimed"
